@@ -54,7 +54,17 @@ def c03(ctx):
     ctx.gotest("cc", "^TestVerifC03", race=False, timeout=3000)
 
 
+def c18(ctx):
+    ctx.gotest("internal", "^TestVerifC18", race=False, timeout=1800)
+    ctx.gotest("grpcutil", "^TestVerifC18", race=False, timeout=1800)
+
+
 SPECS = {
+    "C18": {"fn": c18, "level": "exploration",
+            "technique": "runtime monitoring: round-trip (inverse) laws evaluated on the real conversion functions and strict codecs over seeded random values and an exhaustive length<=2 slice for percent-encoding",
+            "text": "The exported conversion functions are executed on 10^4-10^6 generated errors (all codes, UTF-8 messages, details with canonical and deliberately non-canonical encodings), header lists (mixed case, repeated keys, binary keys), all byte strings of length <=2 plus random ones, and random conformance messages; the oracle is the inverse law of each pair, input immutability and rejection of unknown fields.",
+            "note": "Detail type is compared by message name (the prefix before the last slash is a resolver convention); -bin values are generated as unpadded base64 (the form the protocol uses).",
+            "assumptions": ["net/url.PathUnescape is standard percent-decoding"]},
     "C03": {"fn": c03, "level": "exploration",
             "technique": "runtime monitoring: metamorphic oracle over the real testResults.assert - echo and documented-leniency rewrites must keep the verdict, every single deviation at every position must fail and be named",
             "text": "For hundreds to thousands of expected results (expanded corpus + synthetic shapes) the real assert is run on the exact echo, on each leniency-preserving rewrite alone and combined, and on every single deviation at every position (n-th payload, detail, header, value, echoed request); the recorded outcome and its text are the observation.",
